@@ -11,6 +11,10 @@ import common  # noqa: E402
 
 
 def main():
+    if os.environ.get('VERIF_DEBUG_DUMP'):
+        import faulthandler
+        faulthandler.dump_traceback_later(float(os.environ['VERIF_DEBUG_DUMP']), exit=False)
+
     common.ensure_env()
     ap = argparse.ArgumentParser()
     ap.add_argument('prop', nargs='?')
